@@ -114,6 +114,23 @@ def member_sources(facts, res):
     return out
 
 
+def ctor_geometry(facts, res):
+    """member -> symbolic value for the members the configuration constructor fills from the configuration's accessors"""
+    ctor = [c for c, src, calls in member_sources(facts, res) if not is_copy(c) and calls]
+    srcs = [src for c, src, calls in member_sources(facts, res) if c in ctor]
+    geo = {}
+    if len(srcs) != 1:
+        return geo
+    for mname, txt in srcs[0].items():
+        if re.search(r"\.getBoxWidths\(\)\[0\]$", txt):
+            geo[mname] = W
+        elif re.search(r"\.getLeafWidths\(\)\[0\]$", txt):
+            geo[mname] = W / sympy.Integer(2) ** (H - 1)
+        elif re.search(r"\.getTreeHeight\(\)\)?$", txt):
+            geo[mname] = H
+    return geo
+
+
 def table_geometry(facts, res):
     R = "C04.1.level-tables"
     fn = facts.fn(K + "::precomputeTranslationCoef")
@@ -659,7 +676,31 @@ def run(res, tier):
     res.assumptions.append("the truncation error bound and everything about the spherical-harmonic formulas is NOT decided; the leaf width / box corner of the configuration are those decided by C06.6")
     res.trusted = ["clang 14 + tbfscan", "sympy normal forms", "symx closed forms of geometric / arithmetic recurrences", "operator role table (coherence.ROLES)"]
     res.checker_cmds.append("./check C04")
-    geo = table_geometry(facts, res)
+    import c05
+    try:
+        g0 = ctor_geometry(facts, tbf.Result("C04"))
+    except AnalysisBroken:
+        g0 = {}
+
+    def determined(key, member):
+        """is `member` a function of the key members?  (symbols of its symbolic value among those of the key's)"""
+        if member not in g0:
+            return False
+        have = set()
+        for k_ in key:
+            if k_ in g0:
+                have |= g0[k_].free_symbols
+        return sympy.sympify(g0[member]).free_symbols <= have
+    shared = c05.no_process_state(facts, res, "src/kernels/rotationkernel/", "C04.5.stateless-operators", determined)
+    c05.operator_static_locals(facts, res, K, "C04.5.stateless-operators")
+    try:
+        geo = table_geometry(facts, res)
+    except AnalysisBroken:
+        if not shared:
+            raise
+        # the tables are built into / taken from the process-wide state reported above: their closed forms cannot be evaluated per kernel
+        stateless(facts, res)
+        return
     # geometry members used by the other clauses
     cs = [src for c, src, calls in member_sources(facts, res) if calls and not is_copy(c)]
     corner = [m for m, t in cs[0].items() if re.search(r"\.getBoxCorner\(\)$", t)]
